@@ -180,6 +180,15 @@ class HistGen:
                     pass
 
     def advance(self, dts):
+        # virtual time is exact in the model, the implementation adds the real milliseconds of the run on top: a gap of exactly
+        # the inactivity threshold (600 s) between two points of the history would be "not yet" in one and "just over" in the
+        # other (e.g. 300 + 300): such gaps are moved off the boundary
+        marks = getattr(self, "marks", None)
+        if marks is None:
+            marks = self.marks = set()
+        marks.add(self.clock)
+        while any(self.clock + dts - m == 600 for m in marks):
+            dts += 1
         self.clock += dts
         self.ops.append({"op": "advance", "dts": dts})
 
@@ -455,6 +464,10 @@ class HistGen:
             self.drain(rng.randint(0, 3), {"ok": 2, "retry": 1})
             for _ in range(rng.randint(0, 3)):
                 self.txn(rng.choice(runs), rich=rng.random())
+        if rng.random() < 0.2:
+            # a long silence before the termination request: the applications are past the inactivity threshold, what they
+            # hold is flushed all the same (fix de635d6: the final harvest removed them and dropped their data)
+            self.advance(rng.choice([599, 601, 700, 5000]))
         outs = {}
         for r_ in runs:
             for c in CATS:
